@@ -262,7 +262,7 @@ def compose(seed, adversarial=False):
         attempt(s)
     target = rng.choice([2, 3, 5, 8, 12])
     tries = 0
-    w = {'lib': 6 if b.lib else 0, 'mp': 3, 'inst': 2, 'prim': 1, 'gen': rng.choice([0, 1, 2]), 'taut': 1 if lib_name == 'Tautology' else 0}
+    w = {'lib': 6 if b.lib else 0, 'mp': 3, 'inst': 2, 'prim': 1, 'gen': rng.choice([0, 1, 2]), 'genprobe': rng.choice([0, 1, 1]), 'taut': 1 if lib_name == 'Tautology' else 0}
     names, weights = list(w), [w[n] for n in w]
     while len(steps) < len(ax_steps) + target and tries < 200:
         tries += 1
@@ -286,6 +286,22 @@ def compose(seed, adversarial=False):
             i = rng.choice(live)
             cand = list(k.evars) + [5]
             attempt(['gen', i, rng.choice(cand)])
+        elif kind == 'genprobe':
+            # P -> (Q -> P) with P full of pending substitutions / binders / constrained metavariables, then a
+            # generalisation whose variable the toolkit has to judge (it may refuse; what it accepts is serialised)
+            x = rng.choice(k.evars)
+            y = rng.choice([e for e in k.evars if e != x] or [(x + 1) % 250])
+            X = x if x in (0, 1, 2) else rng.choice(k.svars)
+            m, mf = T.mv(3), T.mv(3, ef=(x,))
+            plugs = [T.imp(T.evar(x), T.evar(y)), T.evar(y), T.evar(x), T.sym(0), T.mv(4, ef=(x,)), T.ex(x, T.evar(x)), T.svar(X)]
+            fam = [T.esub(m, x, rng.choice(plugs)), T.esub(m, y, rng.choice(plugs)), T.ssub(m, X, rng.choice(plugs)), T.ssub(mf, X, rng.choice(plugs)),
+                   T.ex(x, m), T.ex(y, T.esub(m, x, rng.choice(plugs))), T.mu(X, T.app(T.svar(X), T.evar(x))), mf, nneg(T.ssub(mf, X, rng.choice(plugs)))]
+            P_ = rng.choice(fam)
+            if not _safe(P_) or not T.wf_deep(B.expand(P_)):
+                continue
+            Q_ = rng.choice([T.sym(0), T.evar(y), T.mv(4, ef=(x,)), nbot()])
+            if attempt(['prim', 'prop1']) and attempt(['inst', len(b.pool) - 1, [[0, P_], [1, Q_]]]):
+                attempt(['gen', len(b.pool) - 1, rng.choice([x, y] + list(k.evars))])
         elif kind == 'inst' and live:
             i = rng.choice(live)
             conc = B.from_py(b.pool[i].conc)
